@@ -69,6 +69,7 @@ def _dispatch(dec):
 
 
 def check(ctx):
+    lib_mux.canon_roles(ctx.prog, 'libp2p_mplex')
     prog = ctx.prog
     mx = prog.const(MP, r"codec::MAX_FRAME_SIZE$").get("v")
     ctx.ob("const", "MAX_FRAME_SIZE == 1 MiB", mx == 1024 * 1024, msg="MAX_FRAME_SIZE = %s" % mx)
